@@ -284,6 +284,10 @@ func Font(k int) *sfnt.Font {
 				fe.Optional = append(fe.Optional, 3)
 			}
 		}
+		// a lookup that names a mark filtering set although the font has no GDEF table (files like this
+		// are accepted; the flag and the index are part of the font)
+		l2.Meta.LookupFlags |= gtab.UseMarkFilteringSet
+		l2.Meta.MarkFilteringSet = 1
 		if k == 0 {
 			// the subsetter declares contextual lookups unsupported: the glyf font keeps a GSUB it can subset
 			f.Gsub.LookupList = gtab.LookupList{l0, l1, l2}
@@ -307,6 +311,8 @@ func Font(k int) *sfnt.Font {
 			panic("c16ops: the glyf font has no glyph names")
 		}
 		o.Names[len(o.Names)-1] = "uni0066_uni0069." + strings.Repeat("long_", 17)
+		// raw tables the font carries along (the writers add them to what they generate)
+		o.Tables = map[string][]byte{"cvt ": {0, 1, 0, 2, 0, 3}, "gasp": {0, 1, 0, 1, 0xFF, 0xFF, 0, 3}}
 	}
 	return f
 }
